@@ -197,6 +197,14 @@ func (fc *FnCtx) nilMapEmpty(prefix, name, sortName string) {
 	if (strings.HasPrefix(prefix, "F$") || strings.HasPrefix(prefix, "D$")) && strings.HasPrefix(sortName, "(Array Int (Slc ") {
 		fc.fact(fmt.Sprintf("(forall ((r Int)) (! (and (<= 0 (slen (select %s r))) (<= 0 (soff (select %s r)))) :pattern ((select %s r))))", name, name, name))
 	}
+	// the same for slices held as map values
+	if strings.HasPrefix(prefix, "MV$") && strings.HasPrefix(sortName, "(Array Int (Array ") {
+		if inner := sortArgs(sortName); len(inner) == 2 {
+			if kv := sortArgs(inner[1]); len(kv) == 2 && strings.HasPrefix(kv[1], "(Slc ") {
+				fc.fact(fmt.Sprintf("(forall ((m Int) (k %s)) (! (and (<= 0 (slen (select (select %s m) k))) (<= 0 (soff (select (select %s m) k)))) :pattern ((select (select %s m) k))))", kv[0], name, name, name))
+			}
+		}
+	}
 	if !strings.HasPrefix(prefix, "MD$") || !strings.HasPrefix(sortName, "(Array Int (Array ") {
 		return
 	}
